@@ -186,8 +186,11 @@ func body(s *simrt.Sim, tier string) {
 			if len(cand) == 0 {
 				return
 			}
-			if se := c.Entry(cand[s.Choose(len(cand), "whichEntry")].id); se.Valid() {
+			pick := cand[s.Choose(len(cand), "whichEntry")]
+			if se := c.Entry(pick.id); se.Valid() {
 				snap = []cron.Entry{se}
+			} else if !pick.removed && pick.remInv.IsZero() && pick.addRetStamp != 0 && pick.addRetStamp < invStamp {
+				s.Fail("entry-not-found", fmt.Sprintf("Entry(id) of e%d, added and never removed, is reported as not valid", pick.idx))
 			}
 		} else {
 			snap = c.Entries()
@@ -226,6 +229,18 @@ func body(s *simrt.Sim, tier string) {
 				if exact && se.Next.Before(inv) {
 					s.Fail("entries-next-in-past", fmt.Sprintf("Entries() at %s reports Next=%s for e%d: an activation in the past was left unserved", rel(inv), rel(se.Next), e.idx))
 				}
+				if exact {
+					// the latest start of e that happened before this snapshot was for an activation: Prev is that one or a later one
+					var last *start
+					for _, st := range e.starts {
+						if st.stamp < invStamp {
+							last = st
+						}
+					}
+					if last != nil && se.Prev.Before(last.at) {
+						s.Fail("entries-prev", fmt.Sprintf("Entries() at %s reports Prev=%s for e%d although a job of it was started at %s", rel(inv), rel(se.Prev), e.idx, rel(last.at)))
+					}
+				}
 				if exact && !se.Prev.IsZero() {
 					// exact mode: Prev is the activation the entry's latest start was for: the start instants
 					// are the activation instants, so some job of e started (or is about to start) at Prev
@@ -248,6 +263,16 @@ func body(s *simrt.Sim, tier string) {
 			for _, o := range l {
 				switch o.k {
 				case opStart:
+					if ep := running(); ep != nil && !ep.startRet.IsZero() && !ep.stopped && ep.stopInv.IsZero() && cl == 0 {
+						// already running: Start and Run are no-ops that return at once
+						if s.Choose(2, "againViaRun") == 0 {
+							c.Run()
+						} else {
+							c.Start()
+						}
+						s.Yield("start.again")
+						continue
+					}
 					if cl != 0 || running() != nil {
 						continue // Start/Stop only from client 0 keeps run epochs unambiguous
 					}
